@@ -79,7 +79,7 @@ type frame struct {
 func (f frame) String() string { return f.Fn + " " + f.File + ":" + strconv.Itoa(f.Line) }
 
 type rec struct {
-	buf [1200]uintptr
+	buf [9000]uintptr
 	n   int
 }
 
@@ -303,9 +303,32 @@ func allChains(maxLen int) []chain {
 	return out
 }
 
+// stage is a logger met on the way through a chain (the base and every intermediate result) with the
+// caller skip added up to there.
+type stage struct {
+	l     *zap.Logger
+	s     *zap.SugaredLogger
+	skips int
+}
+
 func (ch chain) apply(l *zap.Logger) (*zap.Logger, *zap.SugaredLogger) {
+	fl, fs, _ := ch.applyAll(l)
+	return fl, fs
+}
+
+// applyAll also returns every logger the chain passed through before its last step.
+func (ch chain) applyAll(l *zap.Logger) (*zap.Logger, *zap.SugaredLogger, []stage) {
 	var s *zap.SugaredLogger
+	var stages []stage
+	skips := 0
 	for _, o := range ch.ops {
+		stages = append(stages, stage{l, s, skips})
+		switch o {
+		case opSkip1:
+			skips++
+		case opSkipM1:
+			skips--
+		}
 		switch o {
 		case opSugar:
 			s, l = l.Sugar(), nil
@@ -349,7 +372,7 @@ func (ch chain) apply(l *zap.Logger) (*zap.Logger, *zap.SugaredLogger) {
 			}
 		}
 	}
-	return l, s
+	return l, s, stages
 }
 
 // ---------------------------------------------------------------------------
@@ -841,6 +864,17 @@ func baseLogger(sk *sink, addCaller bool, k int, thr *stackThr) *zap.Logger {
 	return zap.New(capCore{sk}, opts...)
 }
 
+// infoSite is the generated call site of the Info method among the given sites.
+func infoSite(ss []*site) *site {
+	for _, s := range ss {
+		if s.method == "Info" {
+			return s
+		}
+	}
+	ev.ToolError("no generated site for Info")
+	return nil
+}
+
 func zapPanics(l zapcore.Level) bool { return l == zapcore.PanicLevel || l == zapcore.FatalLevel }
 
 // ---------------------------------------------------------------------------
@@ -888,7 +922,7 @@ func main() {
 		cc := &call{st: calibSite, r: w.r}
 		cc.run(0) // natural frame count of this launcher: site + wrappers + runner + main + runtime frames
 		t0 := w.r.n
-		depths := []int{63, 64, 65, 127, 128, 129, 255, 256, 257}
+		depths := []int{63, 64, 65, 127, 128, 129, 255, 256, 257, 511, 512, 513, 1023, 1024, 1025, 2047, 2048, 2049, 4097, 8200} // storage grows from the default slab in one capture
 		pick := func(ss []*site, m string) *site {
 			for _, s := range ss {
 				if s.method == m {
@@ -970,7 +1004,7 @@ func main() {
 				if sm == 1 {
 					thr, scfg = thrAll, thrAll.name
 				}
-				l, s := ch.apply(baseLogger(w.sk, true, k, thr))
+				l, s, stages := ch.applyAll(baseLogger(w.sk, true, k, thr))
 				total := k + ch.skips
 				sites := loggerSites
 				if ch.sugar {
@@ -985,6 +1019,25 @@ func main() {
 							desc:   fmt.Sprintf("New(AddCaller, AddCallerSkip(%d)) then %v", k, ch),
 							replay: map[string]any{"chain": ch.String(), "base_skip": k}})
 					}
+				}
+				// every logger the chain passed through is used again AFTER the whole chain was derived and used:
+				// deriving from a logger (Desugar, Sugar, With ...) must leave its own caller skip alone
+				for si, sg := range stages {
+					if k+sg.skips < 0 {
+						continue
+					}
+					var st *site
+					if sg.s != nil {
+						st = infoSite(sugarSites)
+					} else {
+						st = infoSite(loggerSites)
+					}
+					c := &call{st: st, l: sg.l, s: sg.s, lvl: zapcore.InfoLevel, r: w.r}
+					w.sk.reset()
+					c.run(0)
+					w.check(c, &caseCfg{phase: "chains-intermediate", st: st, skip: k + sg.skips, stackSkip: k + sg.skips, wantCall: true, wantStack: sm == 1, lvlName: "info", stackCfg: scfg, rel: "level>=threshold", fieldSkip: -1,
+						desc:   fmt.Sprintf("New(AddCaller, AddCallerSkip(%d)) then %v; the logger reached after %d of its steps, used after the whole chain was derived and used", k, ch, si),
+						replay: map[string]any{"chain": ch.String(), "base_skip": k, "stage": si}})
 				}
 			}
 		}
@@ -1612,7 +1665,7 @@ func main() {
 	run.Finish(map[string]any{
 		"evaluations":         evals,
 		"distinct_nontrivial": len(classes),
-		"rule": fmt.Sprintf("every kind-correct chain of length <=%d over {Sugar, Desugar, With, WithLazy, Named, WithOptions(), WithOptions(AddCallerSkip(1)), WithOptions(AddCallerSkip(-1)) [running total may be negative, final total >= 0]} x every generated *Logger / *SugaredLogger logging method (level-parameter methods at all 7 levels, Check+Write) x base AddCallerSkip 0..3 x stack off/on; "+
+		"rule": fmt.Sprintf("every kind-correct chain of length <=%d over {Sugar, Desugar, With, WithLazy, Named, WithOptions(), WithOptions(AddCallerSkip(1)), WithOptions(AddCallerSkip(-1)) [running total may be negative, final total >= 0]} x every generated *Logger / *SugaredLogger logging method (level-parameter methods at all 7 levels, Check+Write) x base AddCallerSkip 0..3 x stack off/on, and every logger a chain passed through used once more after the whole chain was derived and used; "+
 			"captured depth %s (+ goroutine-entry sites) x 8 level thresholds x 7 levels x every method x skip 0..3 x AddCaller on/off, incl. std-log bridge, zap.Stack/StackSkip fields and zapslog with 9 slog levels; all 128 level subsets as stack enabler; "+
 			"every generated method on loggers whose lineage starts at NewNop() / New(nil) / the default L() and that are switched on with WrapCore (8 thresholds x caller on/off x plain, With+Named child, Sugar); every generated method again from call sites reached through one or two inlinable helper functions (the reported frame is an inlined frame), skip 0..2, stack off/on; NewStdLog/NewStdLogAt/RedirectStdLog/RedirectStdLogAt (7 levels) x every print method and zap.L()/zap.S() over chains of length <=%d; slog With/WithGroup chains <=%d x 10 thresholds; path alphabet for TrimmedPath. "+
 			"distinct = distinct (phase, method, level, configured skip, stack configuration, caller on/off, captured depth) tuples and distinct path inputs; every one executes a real log call whose entry is compared",
